@@ -3,7 +3,7 @@
 (A) E-enum of CONSISTENT definitions: layouts {STANDARD only; STD+DST; DST listed first; two STANDARDs with an offset
     change; STD + DST + double DST; rename / permanent summer time (same offset, new name or kind)} x offsets (whole minutes
     -12:00..+14:00 incl. half/quarter hours, negative DST) x onset kinds {single onset, RDATE list of 3, yearly n-th weekday rule
-    with ordinal 1/2/-1, none/UNTIL/COUNT} x TZNAME {given, absent, identical}.  Each is written as text, parsed with
+    with ordinal 1/2/-1, none/UNTIL at the last onset/UNTIL one second before the next recurrence/COUNT} x TZNAME {given, absent, identical}.  Each is written as text, parsed with
     Timezone.from_ical, converted with to_tz(TZP(p), lookup_tzid=False) for p in {zoneinfo, pytz} and evaluated at every
     onset -1s/0/+1s up to 2037 and at interval mid-points against refmodel/rfc_tz (latest onset not after the instant;
     onset = local time - TZOFFSETFROM): utcoffset, tzname when given, dst()==0 for STANDARD.
@@ -100,7 +100,7 @@ def build(case):
         dst = std + delta
         m1, m2 = months
         count = 5 if bound == "count" else None
-        uy = 1990 if bound == "until" else None
+        uy = 1990 if bound in ("until", "until-late") else None
         on_d = rule_onsets(1986, m1, ordn, wd, 2, count=count, until_year=uy)
         on_s = rule_onsets(1986, m2, ordn, wd, 3, count=count, until_year=uy)
         n1, n2 = {"given": ("XST", "XDT"), "absent": (None, None), "same": ("XT", "XT")}[names]
@@ -111,6 +111,10 @@ def build(case):
                 r += ";COUNT=5"
             elif bound == "until":
                 r += ";UNTIL=" + fmt(ons[-1] - timedelta(minutes=frm)) + "Z"
+            elif bound == "until-late":
+                # the latest UNTIL that still excludes the next recurrence: one second before it (in UTC)
+                nxt = rule_onsets(1986, month, ordn, wd, ons[0].hour, until_year=uy + 1)[-1]
+                r += ";UNTIL=" + fmt(nxt - timedelta(minutes=frm) - timedelta(seconds=1)) + "Z"
             return r + f";BYDAY={ordn}{wd};BYMONTH={month}"
         d.add("STANDARD", std, std, n1, [datetime(1980, 1, 1)])
         d.add("DAYLIGHT", std, dst, n2, on_d, rule(m1, on_d, std))
@@ -404,7 +408,7 @@ def definitions(quick):
                 for ordn in (1, 2, -1):
                     for months in ((3, 10), (4, 9)):
                         for wd in ("SU", "FR"):
-                            for bound in ("none", "until", "count"):
+                            for bound in ("none", "until", "count", "until-late"):
                                 for names in ("given", "absent", "same"):
                                     i += 1
                                     if quick and i % 2:
